@@ -58,7 +58,6 @@ type recSink struct {
 func (s *recSink) Receive(c *storage.FlowCollection) { s.got = append(s.got, c) }
 
 type state struct {
-	wraps    bool // configuration in which the emission walk lands exactly on the head index (see walkHitsHead)
 	r        *storage.BucketRing
 	interval int64
 	flows    []*accepted
@@ -145,13 +144,9 @@ func (s *state) checkSink(h sink, op string, cs []*storage.FlowCollection) {
 		// at most once: no bucket start time is covered by two received collections
 		for bs := c.StartTime; bs < c.EndTime; bs += s.interval {
 			if s.covered[bs] {
+				// regression guard for /repo 6722529 (the backward walk used to wrap around the ring when a window
+				// boundary landed exactly on the head index)
 				sig := "window-emitted-twice"
-				if s.wraps {
-					// known finding: the backward walk of EmitFlowCollections only stops when the head index is
-					// STRICTLY inside the next window; in this configuration it lands exactly on the head index,
-					// keeps walking around the ring and builds windows that overlap the ones already built
-					sig = "window-emitted-twice:walk-wraps-past-head"
-				}
 				h.OracleFail(sig, "a bucket was included in two collections handed to the sink",
 					map[string]any{"op": op, "bucket_start": bs, "collection": fmt.Sprintf("%d-%d", c.StartTime, c.EndTime)})
 			}
@@ -196,7 +191,6 @@ func exec(h sink, s *state, op string) string {
 		nowFunc := func() time.Time { return time.Unix(now, 0) }
 		s.r = storage.NewBucketRing(n, iv, now, storage.WithNowFunc(nowFunc), storage.WithPushAfter(pa), storage.WithBucketsToAggregate(ag))
 		s.interval = int64(iv)
-		s.wraps = walkHitsHead(n, pa, ag)
 		s.flows = nil
 		s.covered = map[int64]bool{}
 		return "ok | " + dump(s.r)
@@ -269,9 +263,6 @@ func exec(h sink, s *state, op string) string {
 					// the window of this bucket has already been handed to the sink: this flow is accepted
 					// (and answered by List) but will never be emitted
 					lsig := "late-flow-after-emission"
-					if s.wraps {
-						lsig += ":wrap-config" // here the window may also have been emitted prematurely by the wrapped walk
-					}
 					h.OracleFail(lsig, "a flow was accepted into a window that had already been emitted to the sink, so it is left out of the emitted data",
 						map[string]any{"op": op, "bucket_start": cb.Start, "key": k})
 				}
@@ -377,71 +368,24 @@ func exec(h sink, s *state, op string) string {
 	panic("unknown op " + op)
 }
 
-// emitTerminates simulates the index walk of EmitFlowCollections (head = 0, no pushed bucket).
-func emitTerminates(n, pa, ag int) bool {
-	sub := func(i, k int) int { return ((i-k)%n + n) % n }
-	between := func(s, e, t int) bool {
-		if s == e {
-			return false
-		}
-		if s < e {
-			return t > s && t < e
-		}
-		return t > s || t < e
-	}
-	e := sub(sub(0, 1), pa)
-	s := sub(e, ag)
-	for i := 0; i < 4*n+4; i++ {
-		e = s
-		s = sub(s, ag)
-		if between(s, e, 0) {
-			return true
-		}
-	}
-	return false
-}
-
-// walkHitsHead: does the index walk of EmitFlowCollections (head = 0, no pushed bucket) reach a window
-// boundary equal to the head index before a window strictly contains the head?
-func walkHitsHead(n, pa, ag int) bool {
-	sub := func(i, k int) int { return ((i-k)%n + n) % n }
-	e := sub(sub(0, 1), pa)
-	s := sub(e, ag)
-	for i := 0; i < 4*n+4; i++ {
-		e = s
-		s = sub(s, ag)
-		if s != e && ((s < e && 0 > s && 0 < e) || (s > e && (0 > s || 0 < e))) {
-			return false
-		}
-		if s == 0 || e == 0 {
-			return true
-		}
-	}
-	return true
-}
-
 func genCase(h *rt.H) []string {
 	n := 4 + h.Intn(7)
 	iv := rt.Pick(h, []int{1, 2, 5, 15})
 	now := int64(1000 + h.Intn(500))
 	pa := h.Intn(3)
 	ag := 1 + h.Intn(3)
-	for pa+ag+2 > n {
-		if ag > 1 {
-			ag--
-		} else {
-			pa--
+	if h.Chance(0.12) {
+		// arbitrary (also senseless) options: zero-width windows, windows that do not fit into the ring
+		pa, ag = h.Intn(n+3), h.Intn(n+2)
+		h.Count("config:arbitrary-options")
+	} else {
+		for pa+ag+2 > n {
+			if ag > 1 {
+				ag--
+			} else {
+				pa--
+			}
 		}
-	}
-	if !emitTerminates(n, pa, ag) {
-		// EmitFlowCollections walks backwards in steps of bucketsToAggregate until it meets a pushed
-		// bucket or a window that strictly contains the head index. For this (n, pushAfter,
-		// bucketsToAggregate) the walk returns to its starting window without ever strictly containing
-		// the head, so on a ring without pushed buckets the real loop never terminates (observed: the
-		// harness hung with unbounded memory growth). Such configurations cannot be driven; they are
-		// counted and replaced.
-		h.Count("config:emit-walk-never-crosses-head(skipped)")
-		return genCase(h)
 	}
 	sh := &state{}
 	var ops []string
@@ -517,7 +461,7 @@ func genCase(h *rt.H) []string {
 func main() {
 	h := rt.New()
 	defer h.Close()
-	h.Rule = "case = one ring (4..10 buckets, interval 1/2/5/15 s, pushAfter 0..2, bucketsToAggregate 1..3) + 8..57 steps over " +
+	h.Rule = "case = one ring (4..10 buckets, interval 1/2/5/15 s, pushAfter 0..2, bucketsToAggregate 1..3; 12% arbitrary options incl. zero-width and non-fitting windows) + 8..57 steps over " +
 		"{add (current / future / boundary / out-of-history / late flows), roll with or without sink, emit, list (bucket-aligned, unaligned, 0 = unbounded), find}; " +
 		"distinct = distinct op sequence; non-trivial = the sink received at least one non-empty collection or a flow was rejected or a late flow was accepted"
 	run := func(ops []string, tag string) {
